@@ -654,7 +654,11 @@ func planTrack(t *track, r *rand.Rand, class string, delay float64) []event {
 	if class == "late-start" {
 		// the recorder's first packet is not the first packet of the stream;
 		// what precedes it is lost or comes late
-		start = 1 + r.IntN(min(20, n/3))
+		maxStart := 20
+		if audio {
+			maxStart = 8 // stays inside the audio reorder window together with the displacement
+		}
+		start = 1 + r.IntN(min(maxStart, n/3))
 		reorder = r.IntN(2) == 0
 	}
 	maxRun := 35
@@ -690,7 +694,8 @@ func planTrack(t *track, r *rand.Rand, class string, delay float64) []event {
 	}
 	if class == "late-start" {
 		for j := 0; j < start; j++ {
-			if r.IntN(5) != 0 {
+			tooOld := t.frames[t.pkts[start].frame].capMs-t.frames[t.pkts[j].frame].capMs > 300
+			if tooOld || r.IntN(5) != 0 {
 				t.withheld[j] = wLost
 			}
 		}
@@ -729,14 +734,26 @@ func planTrack(t *track, r *rand.Rand, class string, delay float64) []event {
 	if audio {
 		maxDisp = 6
 	}
+	// a packet is never more than maxLateMs late: the recorder takes a sample
+	// that is 2^16 ticks (0.73 s of video) older than its origin for a
+	// timestamp wrap, which no real network delay within the window produces
+	const maxLateMs = 400.0
+	later := func(pos, d int) float64 {
+		for ; d > 0; d-- {
+			if a := slot(pos + d); a-slot(pos) <= maxLateMs {
+				return a
+			}
+		}
+		return slot(pos)
+	}
 	var evs []event
 	for pos, pi := range seq {
 		arr := slot(pos)
 		if class == "late-start" && pi < start {
 			// arrives after the packet the recorder sees first
-			arr = slot(min(len(seq)-1, pos+start+r.IntN(maxDisp))) + 0.0003
+			arr = later(pos, start-pi+r.IntN(maxDisp)) + 0.0003
 		} else if rho > 0 && r.Float64() < rho {
-			arr = slot(pos+1+r.IntN(maxDisp)) + 0.0005
+			arr = later(pos, 1+r.IntN(maxDisp)) + 0.0005
 		}
 		evs = append(evs, event{arr: arr, trk: t.id, pkt: pi, ord: len(evs)})
 		if dups && r.IntN(12) == 0 {
@@ -761,10 +778,22 @@ func planTrack(t *track, r *rand.Rand, class string, delay float64) []event {
 		}
 		return evs[i].ord < evs[j].ord
 	})
+	hi := -1
 	for _, e := range evs {
 		d := e.arr - t.frames[t.pkts[e.pkt].frame].capMs
 		if d > t.maxDelay {
 			t.maxDelay = d
+		}
+		// a cached packet reaches the recorder when a later one shows the gap
+		for pi := hi + 1; pi < e.pkt; pi++ {
+			if t.withheld[pi] == wCached {
+				if d := e.arr - t.frames[t.pkts[pi].frame].capMs; d > t.maxDelay {
+					t.maxDelay = d
+				}
+			}
+		}
+		if e.pkt > hi {
+			hi = e.pkt
 		}
 	}
 	t.firstEvent = evs[0].pkt
@@ -908,9 +937,12 @@ func (s *session) drive() error {
 			continue
 		}
 		raw := t.pkts[e.pkt].raw
-		n, err := t.local.Write(raw)
+		// the server stores a packet in its cache before forwarding it
 		t.mu.Lock()
 		t.delivered[e.pkt] = true
+		t.mu.Unlock()
+		n, err := t.local.Write(raw)
+		t.mu.Lock()
 		if t.firstPush[e.pkt] < 0 {
 			t.firstPush[e.pkt] = int64(i)
 		}
@@ -1239,7 +1271,7 @@ func (t *track) reference() []sample {
 		b = samplebuilder.New(256, &codecs.H264Packet{}, t.clock)
 	}
 	var out []sample
-	for _, pi := range t.feed {
+	for fi, pi := range t.feed {
 		raw := append([]byte(nil), t.pkts[pi].raw...)
 		p := new(rtp.Packet)
 		if err := p.Unmarshal(raw); err != nil {
@@ -1251,7 +1283,7 @@ func (t *track) reference() []sample {
 			if s == nil {
 				break
 			}
-			out = append(out, sample{data: s.Data})
+			out = append(out, sample{data: s.Data, pos: fi})
 		}
 	}
 	for {
@@ -1259,9 +1291,104 @@ func (t *track) reference() []sample {
 		if s == nil {
 			break
 		}
-		out = append(out, sample{data: s.Data})
+		out = append(out, sample{data: s.Data, pos: len(t.feed)})
 	}
 	return out
+}
+
+// refInfo is what the pinned sample builder does, alone, with the packets the
+// recorder was observed to receive.
+type refRun struct {
+	t        *track
+	samples  []sample
+	matches  []match
+	sig      map[string]bool // defects of the builder's own output
+	released []bool          // frame came out of the builder exactly
+	writable []bool          // ... at or after the first keyframe that came out
+	stale    []bool          // keyframe released only after another keyframe's first packet arrived
+	goodKfAt int             // feed position at which the first non-stale keyframe was released (-1 none)
+}
+
+func (t *track) refInfo(required []bool) *refRun {
+	ri := &refRun{t: t, sig: map[string]bool{}, goodKfAt: -1}
+	ri.samples = t.reference()
+	var issues []issue
+	issues, ri.matches = t.checkSamples(ri.samples, required, false)
+	for _, is := range issues {
+		ri.sig[is.sig] = true
+	}
+	n := len(t.frames)
+	ri.released, ri.writable, ri.stale = make([]bool, n), make([]bool, n), make([]bool, n)
+	firstFeed := map[int]int{}
+	for fi, pi := range t.feed {
+		if _, ok := firstFeed[pi]; !ok {
+			firstFeed[pi] = fi
+		}
+	}
+	started := t.id == 0
+	for i, m := range ri.matches {
+		if m.frame < 0 {
+			continue
+		}
+		ri.released[m.frame] = true
+		if t.frames[m.frame].key {
+			started = true
+		}
+		if started {
+			ri.writable[m.frame] = true
+		}
+		if t.id == 1 && t.frames[m.frame].key {
+			// stale keyframe: between the arrival of its first packet and its
+			// release, the first packet of another keyframe reached the recorder
+			own := firstFeed[t.frames[m.frame].p0]
+			for h := range t.frames {
+				if h == m.frame || !t.frames[h].key {
+					continue
+				}
+				if fp, ok := firstFeed[t.frames[h].p0]; ok && fp > own && fp <= ri.samples[i].pos {
+					ri.stale[m.frame] = true
+				}
+			}
+			if !ri.stale[m.frame] && ri.goodKfAt < 0 {
+				ri.goodKfAt = ri.samples[i].pos
+			}
+		}
+	}
+	return ri
+}
+
+func (ri *refRun) staleAt(i int) bool {
+	for g := i; g >= 0; g-- {
+		if ri.t.frames[g].key && ri.released[g] {
+			return ri.stale[g]
+		}
+	}
+	return false
+}
+
+// allPushed: every packet of the frame reached the recorder (by Write or GetPacket).
+func (t *track) allPushed(f *frame) bool {
+	for k := f.p0; k < f.p0+f.pn; k++ {
+		if t.firstPush[k] < 0 {
+			return false
+		}
+	}
+	return true
+}
+
+// midstreamSync: both tracks got sender reports and the later of the two first
+// reports came after the recorder had already received video.
+func (s *session) midstreamSync() bool {
+	if s.audio == nil || s.video == nil || len(s.audio.srEvents) == 0 || len(s.video.srEvents) == 0 {
+		return false
+	}
+	sync := max(s.audio.srEvents[0], s.video.srEvents[0])
+	for _, fp := range s.video.firstPush {
+		if fp >= 0 && fp < sync {
+			return true
+		}
+	}
+	return false
 }
 
 func (s *session) replay() map[string]any {
@@ -1377,7 +1504,21 @@ func (s *session) check() {
 
 	// ---- the files
 	if len(s.openFds) > 0 {
-		s.violation("not-flushed:file-left-open", fmt.Sprintf("after the %s call returned the recorder still holds %v open", p.End, s.openFds))
+		key := "not-flushed:file-left-open"
+		what := fmt.Sprintf("after the %s call returned the recorder still holds %v open", p.End, s.openFds)
+		if s.video != nil && s.audio != nil {
+			// when did the first keyframe the recorder can recognise come out of
+			// the sample builder?  (observed feed, pinned builder run alone)
+			ri := s.video.refInfo(nil)
+			if ri.goodKfAt == len(s.video.feed) {
+				key += ":first-keyframe-released-by-closing-flush"
+				what += "; no video keyframe had been released by the sample builder before the closing call (its forced flush released the first one), so the file was created during the close, after the audio writer had already been closed"
+			} else if s.midstreamSync() {
+				key += ":sender-report-midstream"
+				what += "; both tracks were synchronised by sender reports after recording began"
+			}
+		}
+		s.violation(key, what)
 	}
 	per := map[int][]sample{}
 	type fblock struct {
@@ -1533,28 +1674,12 @@ func (s *session) check() {
 		}
 		anyIssue = true
 		// attribution: does the sample builder alone, on the same input, do the same?
-		refIssues, refMatches := t.checkSamples(t.reference(), e.required, false)
-		refSig := map[string]bool{}
-		for _, ri := range refIssues {
-			refSig[ri.sig] = true
-		}
-		// knock-on: a recorder cannot write what the sample builder never
-		// released, nor video before the first keyframe the builder released
-		writable := make([]bool, len(t.frames))
-		started := t.id == 0
-		for _, m := range refMatches {
-			if m.frame < 0 {
-				continue
-			}
-			if t.frames[m.frame].key {
-				started = true
-			}
-			if started {
-				writable[m.frame] = true
-			}
-		}
+		ri := t.refInfo(e.required)
+		refSig, staleAt := ri.sig, ri.staleAt
 		for _, is := range issues {
-			if (is.clause == "frame-missing" || is.clause == "not-flushed") && is.frame >= 0 && !writable[is.frame] {
+			if (is.clause == "frame-missing" || is.clause == "not-flushed") && is.frame >= 0 && !ri.writable[is.frame] && t.allPushed(&t.frames[is.frame]) {
+				// knock-on: a recorder cannot write what the sample builder never
+				// released, nor video before the first keyframe the builder released
 				refSig[is.sig] = true
 			}
 		}
@@ -1566,16 +1691,40 @@ func (s *session) check() {
 				continue
 			}
 			key := is.clause
-			if is.clause != "timecode-decreases" && refSig[is.sig] {
-				key = "samplebuilder:" + is.clause + ":" + p.Class
+			if is.clause == "timecode-decreases" && is.frame >= 0 && (refSig[fmt.Sprintf("o:%d", is.frame)] || refSig[fmt.Sprintf("d:%d", is.frame)]) {
+				// the sample builder released this frame late or twice
+				is.sig = fmt.Sprintf("o:%d", is.frame)
+				refSig[is.sig] = true
+			}
+			if refSig[is.sig] {
+				key = "samplebuilder:" + p.Class
+				if p.H264Multi && t.codec == "h264" {
+					key = "samplebuilder:h264-keyframe-split-per-nal"
+				}
+				is.what = is.clause + ": " + is.what + " - the pinned sample builder alone, fed the packets the recorder received, does the same"
 			} else {
 				switch is.clause {
 				case "timecode-decreases", "frame-missing", "not-flushed":
-					if moved := originMoved(t, matches); moved > 2 && len(t.srEvents) > 0 {
+					if is.clause != "timecode-decreases" && is.frame >= 0 && !t.allPushed(&t.frames[is.frame]) {
+						f := &t.frames[is.frame]
+						k := f.p0
+						for k < f.p0+f.pn-1 && t.firstPush[k] >= 0 {
+							k++
+						}
+						key = "frame-missing:" + t.kind.String() + ":packet-not-fetched-from-cache"
+						is.what += fmt.Sprintf(" (packet %d of the frame, seqno %d, was withheld from Write, sits in the cache, and the recorder never asked GetPacket for it although it saw later packets)", k-f.p0, t.pkts[k].seq)
+					} else if is.clause != "timecode-decreases" && t.id == 1 && is.frame >= 0 && staleAt(is.frame) {
+						key += ":video:stale-keyframe"
+						is.what += " (its keyframe was released by the sample builder only after the first packet of a newer keyframe had arrived)"
+					} else if moved := originMoved(t, matches); moved > 2 && len(t.srEvents) > 0 {
 						// the track's mapping from RTP time to file time changed
 						// while recording and the track got sender reports
 						key += ":" + t.kind.String() + ":origin-moved-by-sender-report"
 						is.what += fmt.Sprintf(" (the track's time origin moved by %.0f ms during the recording; sender reports at events %v)", moved, t.srEvents)
+					} else if s.midstreamSync() {
+						// nothing in the file shows it, but both tracks were
+						// synchronised by sender reports after recording began
+						key += ":" + t.kind.String() + ":sender-report-midstream"
 					} else {
 						key += ":" + t.kind.String() + ":" + p.Class
 					}
